@@ -1,6 +1,7 @@
 package netty
 
 import (
+	"context"
 	"errors"
 	"io"
 
@@ -267,4 +268,59 @@ func ZZ_C07_CloseThenPanic(entry, pval, q, concurrent int) {
 	vrt.Assert(!dead, "c07-goroutines-finish-after-close")
 	vrt.Assert(tr.closes == 1 && inact.n == 1, "c07-closed-exactly-once")
 	vrt.Reach("c07-close-then-panic-done")
+}
+
+// ZZ_C07_PanicAfterParentCancel: the channel's parent context has ended (Shutdown has begun, or the user's context
+// was cancelled) but nobody has closed the channel yet - it is still open - when a handler panics: the exception is
+// delivered like any other, an unconsumed one closes the channel with that exception, a consumed one leaves it
+// open. entry: 0 the read handler cancels the parent itself and then panics in the same delivery (read loop),
+// 1 Channel.Write after the cancellation, 2 Channel.Trigger after the cancellation.
+func ZZ_C07_PanicAfterParentCancel(entry, exmode, q int) {
+	tr := newZZTransport()
+	if entry == 0 {
+		tr.readData = []byte{0x51}
+	}
+	pl := NewPipeline()
+	on := zzKWrite
+	if entry == 2 {
+		on = zzKEvent
+	}
+	if entry == 0 {
+		on = zzKRead
+	}
+	parent, cancelParent := context.WithCancel(vrtBackground())
+	bomb := &zzBomb{on: on, pval: 0, reads: true, closeFirst: entry == 0, ctxClose: cancelParent}
+	exc := &zzExc{mode: exmode}
+	inact := &zzInact{}
+	pl.AddLast(bomb)
+	if exmode != 0 {
+		pl.AddLast(exc)
+	}
+	pl.AddLast(inact)
+	ch := newChannelWith(parent, pl, tr, AsyncExecutor(), 1, q, true).(*channel)
+	pl.ServeChannel(ch)
+	if entry != 0 {
+		vrt.Quiesce() // the read loop is parked in the transport read and does not see the context end
+		cancelParent()
+		vrt.Assert(ch.IsActive(), "c07-channel-still-open-after-parent-cancel")
+	}
+	var escaped interface{}
+	switch entry {
+	case 1:
+		escaped = vrt.Panics(func() { ch.Write([]byte{0x41}) })
+	case 2:
+		escaped = vrt.Panics(func() { ch.Trigger(7) })
+	}
+	vrt.Assert(escaped == nil, "c07-panic-does-not-escape-into-the-caller")
+	dead := vrt.Quiesce()
+	vrt.Assert(bomb.hits == 1, "c07-bomb-fired-after-parent-cancel")
+	if exmode != 0 {
+		vrt.Assert(len(exc.seen) >= 1 && exc.seen[0] == zzErrBomb, "c07-exception-delivered")
+	}
+	if exmode != 2 {
+		vrt.Assert(!dead, "c07-goroutines-finish-after-close")
+		vrt.Assert(tr.closes == 1 && !ch.IsActive() && inact.n == 1, "c07-unconsumed-exception-closes-channel")
+		vrt.Assert(inact.ex == zzErrBomb, "c07-closed-with-the-exception")
+	}
+	vrt.Reach("c07-parent-cancel-done")
 }
